@@ -218,7 +218,7 @@ Section Brackets.
     - intros [|f] fwd [q G] r Hx E; [discriminate|]. rewrite bracket_ir in E.
       destruct (bracket_step fwd b q) as [[q'|]|] eqn:Es; inversion E; subst; constructor; [|constructor].
       eapply bracket_step_clo; eauto.
-    - intros lb fwd s Es. destruct (bracket_single lb fwd b) as [s0 [Es0 Hs0]]. rewrite Es0 in Es. inversion Es; subst s0.
+    - intros fwd s Es. destruct (bracket_single (negb fwd) fwd b) as [s0 [Es0 Hs0]]. rewrite Es0 in Es. inversion Es; subst s0.
       intros q q' Hq E. rewrite Hs0 in E. eapply bracket_step_clo; eauto.
   Qed.
 
@@ -282,8 +282,107 @@ Section Brackets.
     - intros [|f] fwd [q G] r Hx E; [discriminate|]. rewrite (charset_ir f fwd cs q G Hl) in E.
       destruct (charset_step fwd cs q) as [[q'|]|] eqn:Es; inversion E; subst; constructor; [|constructor].
       eapply charset_step_clo; eauto.
-    - intros lb fwd s Es. destruct (charset_single lb fwd cs Hl) as [s0 [Es0 Hs0]]. rewrite Es0 in Es. inversion Es; subst s0.
+    - intros fwd s Es. destruct (charset_single (negb fwd) fwd cs Hl) as [s0 [Es0 Hs0]]. rewrite Es0 in Es. inversion Es; subst s0.
       intros q q' Hq E. rewrite Hs0 in E. eapply charset_step_clo; eauto.
+  Qed.
+
+  (* ---- nodes without byte-level leaves, backreferences or string sets stay among the well-formed positions ---- *)
+  Lemma next_if_clo fwd q t q' : okp q -> next_if ix fwd h q t = Ok (Some q') -> okp q'.
+  Proof.
+    intros Hq E. unfold next_if in E. destruct (cnext ix fwd h q) as [e|[[c q1]|]] eqn:Ec; cbn [bindR] in E; try discriminate.
+    destruct (t c); inversion E; subst. eapply Hk1; eauto.
+  Qed.
+
+  Lemma lclo_run1 (n : node) (i : insn) (t : N -> bool) :
+    (forall lb, leaf_code lb n = Some [i]) ->
+    (forall fwd q, run_insns ix unicode h [i] fwd q =
+                   match next_if ix fwd h q t with Ok (Some p') => Some (Some p') | Ok None => Some None | Err _ => None end) ->
+    (forall f fwd x, ir_results ix unicode utf16 h (S f) n fwd x =
+                     results_of x (run_insns ix unicode h [i] fwd (fst x))) ->
+    lclo n.
+  Proof.
+    intros Hcode Hrun Hir. split.
+    - intros [|f] fwd [q G] r Hx E; [discriminate|]. rewrite Hir in E. cbn [fst] in E. rewrite (Hrun fwd q) in E.
+      destruct (next_if ix fwd h q t) as [e|[q'|]] eqn:En; cbn [results_of snd] in E; inversion E; subst; constructor; [|constructor].
+      eapply next_if_clo; eauto.
+    - intros fwd s Es. unfold single_step in Es. rewrite Hcode in Es. injection Es as Hs. subst s.
+      intros q q' Hq E. change (run_insns ix unicode h [i] fwd q = Some (Some q')) in E.
+      rewrite Hrun in E. destruct (next_if ix fwd h q t) as [e|[q1|]] eqn:En; inversion E; subst.
+      eapply next_if_clo; eauto.
+  Qed.
+
+  Lemma al_char c : al (NChar c).
+  Proof.
+    apply (lclo_run1 (NChar c) (Char c) (N.eqb c)); [reflexivity| |intros f fwd [q G]; reflexivity].
+    intros fwd q. cbn [run_insns]. unfold char_pike. destruct (next_if ix fwd h q (N.eqb c)) as [e|[p'|]]; reflexivity.
+  Qed.
+  Lemma al_any : al NMatchAny.
+  Proof.
+    apply (lclo_run1 NMatchAny MatchAny (fun _ => true)); [reflexivity| |intros f fwd [q G]; reflexivity].
+    intros fwd q. cbn [run_insns match1]. destruct (next_if ix fwd h q (fun _ => true)) as [e|[p'|]]; reflexivity.
+  Qed.
+  Lemma al_any_lt : al NMatchAnyExceptLT.
+  Proof.
+    apply (lclo_run1 NMatchAnyExceptLT MatchAnyExceptLT (fun c => negb (is_line_terminator c))); [reflexivity| |intros f fwd [q G]; reflexivity].
+    intros fwd q. cbn [run_insns match1]. destruct (next_if ix fwd h q _) as [e|[p'|]]; reflexivity.
+  Qed.
+
+  Lemma al_charset_any cs : al (NCharSet cs).
+  Proof.
+    destruct (Nat.leb_spec (length cs) 4) as [Hl|Hl]; [apply al_charset; exact Hl|].
+    assert (Hc : forall lb, leaf_code lb (NCharSet cs) = None).
+    { intro lb. unfold leaf_code, emit_char_set. destruct cs as [|c0 cs]; [cbn in Hl; lia|].
+      replace (4 <? length (c0 :: cs))%nat with true by (symmetry; apply Nat.ltb_lt; exact Hl). reflexivity. }
+    split.
+    - intros [|f] fwd [q G] r Hx E; [discriminate|]. cbn [ir_results] in E. rewrite Hc in E. discriminate.
+    - intros fwd s Es. unfold single_step in Es. rewrite Hc in Es. discriminate.
+  Qed.
+
+  Lemma lclo_static n : (forall lb fwd, single_step ix unicode h lb n fwd = None) ->
+    (forall f fwd x r, ir_results ix unicode utf16 h f n fwd x = Some r -> r = [x] \/ r = []) -> lclo n.
+  Proof.
+    intros Hs Hr. split.
+    - intros f fwd x r Hx E. destruct (Hr f fwd x r E) as [->| ->]; [constructor; [exact Hx|constructor]|constructor].
+    - intros fwd s Es. rewrite Hs in Es. discriminate.
+  Qed.
+
+  Fixpoint simple (n : node) : bool :=
+    match n with
+    | NCat l => forallb simple l
+    | NAlt a b => simple a && simple b
+    | NCaptureGroup _ c _ => simple c
+    | NLookaround _ _ _ _ c => simple c
+    | NLoop b _ _ _ _ _ => simple b
+    | NLoop1CharBody b _ _ _ => simple b
+    | NByteSequence _ | NByteSet _ | NBackRef _ _ | NStringSet _ _ => false
+    | _ => true
+    end.
+
+  Theorem al_simple : forall n, simple n = true -> al n.
+  Proof.
+    induction n as [n Hleaf|l H|a b IHa IHb|id c nm IHc|neg bw sg eg c IHc|b mn mx g egs ege IHb|b mn mx g IHb] using node_ind2;
+      intro Hs.
+    - destruct n; try contradiction; try discriminate Hs.
+      + apply al_empty.
+      + (* Goal *) apply lclo_static; [reflexivity|]. intros [|f] fwd [q G] r E; [discriminate|]. cbn in E. inversion E; auto.
+      + apply al_char.
+      + apply al_charset_any.
+      + apply al_any.
+      + apply al_any_lt.
+      + (* Anchor *) apply lclo_static; [reflexivity|]. intros [|f] fwd [q G] r E; [discriminate|]. cbn [ir_results] in E.
+        unfold cond_results in E.
+        match type of E with match ?c with _ => _ end = _ => destruct c as [e|[|]] end; inversion E; auto.
+      + (* WordBoundary *) apply lclo_static; [reflexivity|]. intros [|f] fwd [q G] r E; [discriminate|]. cbn [ir_results] in E.
+        unfold cond_results in E.
+        match type of E with match ?c with _ => _ end = _ => destruct c as [e|[|]] end; inversion E; auto.
+      + apply al_bracket.
+    - apply al_cat. cbn [simple] in Hs. rewrite forallb_forall in Hs. rewrite Forall_forall in *.
+      intros x Hx. apply H; [exact Hx|apply Hs; exact Hx].
+    - cbn [simple] in Hs. apply andb_true_iff in Hs as [H1 H2]. split; auto.
+    - apply IHc. exact Hs.
+    - apply IHc. exact Hs.
+    - apply IHb. exact Hs.
+    - apply IHb. exact Hs.
   Qed.
 
   Lemma ref_reduce fwd ivs : cps_wf ivs = true -> (length (bracket_chars ivs) <= 4)%nat ->
